@@ -45,6 +45,7 @@ func (x *Exec) call(env *evalEnv, n *ast.CallExpr) []Val {
 	// resolve callee
 	var fn *types.Func
 	var recvExpr ast.Expr
+	var recvPath []int
 	switch f := ast.Unparen(n.Fun).(type) {
 	case *ast.Ident:
 		if o, ok := x.lookupObj(env, f).(*types.Func); ok {
@@ -56,6 +57,9 @@ func (x *Exec) call(env *evalEnv, n *ast.CallExpr) []Val {
 				if o, ok := sel.Obj().(*types.Func); ok {
 					fn = o
 					recvExpr = f.X
+					if idx := sel.Index(); len(idx) > 1 {
+						recvPath = idx[:len(idx)-1]
+					}
 				}
 			} else if o, ok := env.info.Uses[f.Sel].(*types.Func); ok {
 				fn = o
@@ -89,7 +93,7 @@ func (x *Exec) call(env *evalEnv, n *ast.CallExpr) []Val {
 		}
 		return []Val{x.specFuncCall(env, n, fn)}
 	}
-	return x.callFunc(env, n, fn, recvExpr)
+	return x.callFunc(env, n, fn, recvExpr, recvPath)
 }
 
 func (x *Exec) tryType(env *evalEnv, e ast.Expr) (t types.Type) {
@@ -297,7 +301,7 @@ func (x *Exec) specMethodCall(env *evalEnv, n *ast.CallExpr, fn *types.Func, rec
 
 // ---------- calls of real functions ----------
 
-func (x *Exec) callFunc(env *evalEnv, n *ast.CallExpr, fn *types.Func, recvExpr ast.Expr) []Val {
+func (x *Exec) callFunc(env *evalEnv, n *ast.CallExpr, fn *types.Func, recvExpr ast.Expr, recvPath []int) []Val {
 	sig := fn.Type().(*types.Signature)
 	full := fn.FullName()
 	// library models
@@ -308,6 +312,9 @@ func (x *Exec) callFunc(env *evalEnv, n *ast.CallExpr, fn *types.Func, recvExpr 
 	var recv *Val
 	if recvExpr != nil {
 		r := x.expr(env, recvExpr)
+		if len(recvPath) > 0 {
+			r = x.walkFields(env, n.Pos(), r, recvPath) // promoted method: receiver is the embedded field
+		}
 		rt := sig.Recv().Type()
 		// auto address / deref
 		if _, wantPtr := ptrElem(rt); wantPtr {
@@ -432,6 +439,19 @@ func (x *Exec) newFrame(cu *FuncUnit, con *Contract, top bool) *frame {
 		}
 		fr.results = append(fr.results, r)
 	}
+	// address-taken locals are boxed (live in the heap)
+	if cu.Decl.Body != nil {
+		ast.Inspect(cu.Decl.Body, func(nd ast.Node) bool {
+			if u, ok := nd.(*ast.UnaryExpr); ok && u.Op == token.AND {
+				if id, ok := ast.Unparen(u.X).(*ast.Ident); ok {
+					if o, ok := cu.Pkg.TypesInfo.ObjectOf(id).(*types.Var); ok && o.Pkg() != nil && o.Parent() != o.Pkg().Scope() {
+						x.boxed[o] = true
+					}
+				}
+			}
+			return true
+		})
+	}
 	// loop ordinals & backward-goto labels
 	if cu.Decl.Body != nil {
 		labels := map[string]*ast.LabeledStmt{}
@@ -482,11 +502,21 @@ func (x *Exec) applyContract(env *evalEnv, n *ast.CallExpr, cu *FuncUnit, con *C
 	}
 	for i := 0; i < sig.Params().Len(); i++ {
 		ce.bound[sig.Params().At(i).Name()] = Val{args[i].S, sig.Params().At(i).Type()}
+		if i < len(con.Params) {
+			ce.bound[con.Params[i]] = Val{args[i].S, sig.Params().At(i).Type()}
+		}
 	}
 	pre := x.st.clone()
 	ce.old = pre
 	k := 0
 	short := shortKey(con.Key)
+	if recv != nil && sig.Recv() != nil {
+		if _, isPtr := ptrElem(sig.Recv().Type()); isPtr {
+			g := not(eq(recv.S, "0"))
+			x.addObl("pre", "", n.Pos(), g, "receiver of "+short+" is non-nil", nil, env.prefix+"@"+short+"#recv")
+			x.st.assume(g)
+		}
+	}
 	for _, cl := range con.Clauses {
 		switch cl.Kind {
 		case "requires":
@@ -522,6 +552,17 @@ func (x *Exec) applyContract(env *evalEnv, n *ast.CallExpr, cu *FuncUnit, con *C
 			x.havocVar(x.st, it.global)
 		case it.whole:
 			x.st.heap[it.field] = x.ctx.Fresh(x.heapName(it.field), fmt.Sprintf("(Array Int %s)", x.ctx.Sort(it.field.Type())))
+		case it.deref != nil:
+			sv := x.st
+			x.st = pre
+			x.inSpec++
+			obj := x.expr(ce, it.deref)
+			x.inSpec--
+			x.st = sv
+			for _, f := range x.derefFields(cu, it.deref) {
+				nv := x.ctx.Fresh("mod_"+f.Name(), x.ctx.Sort(f.Type()))
+				x.st.heap[f] = fmt.Sprintf("(store %s %s %s)", x.heapOf(x.st, f), obj.S, nv)
+			}
 		case it.objExp != nil:
 			sel := it.objExp.(*ast.SelectorExpr)
 			sv := x.st
